@@ -105,3 +105,14 @@ Proof.
   - intros H. apply (f_equal (fun l => map (fun g => g (Some [97; 120; 99]%N)) l)) in H. vm_compute in H. discriminate.
 Qed.
 Print Assumptions C10_current_refuted_tagfilter_cache.
+
+(* The pruning path compiles the filter's value text; for a pattern reduced to a literal that text is the literal:
+   /\./ (source 92 46) is reduced to the literal "." which, compiled, is "any character" and matches the value "b". *)
+Theorem C10_current_refuted_prune_reading :
+  exists (parse : list N -> re) (q : tfq) (v : option (list N)),
+    repaired_match (tf_prune_tree_current parse q) v <> repaired_match (tf_prune_tree_repaired parse q) v.
+Proof.
+  exists (fun s => if list_eqb s [92; 46]%N then RLit false [46]%N else RAnyNL), ([92; 46]%N, false), (Some [98]%N).
+  vm_compute. discriminate.
+Qed.
+Print Assumptions C10_current_refuted_prune_reading.
